@@ -25,8 +25,9 @@ pub enum SvcMethod<'a> {
     Echo {
         cid: u32,
         seq: u32,
+        // zero-copy when the peer wrote the string without escapes, owned otherwise
         #[serde(borrow)]
-        pad: &'a str,
+        pad: std::borrow::Cow<'a, str>,
     },
     #[serde(rename = "org.example.Fail")]
     Fail { cid: u32, seq: u32 },
@@ -41,7 +42,7 @@ pub enum SvcMethod<'a> {
         cid: u32,
         seq: u32,
         #[serde(borrow)]
-        pad: &'a str,
+        pad: std::borrow::Cow<'a, str>,
     },
 }
 
@@ -246,13 +247,27 @@ pub struct ClientSpec {
     pub after_quiet: bool,
 }
 
+/// Payload of `n` characters. One salt in four mixes in characters that the serializer has to
+/// escape (U+0000, other control characters, quote, backslash) and multi-byte characters with
+/// corner-case encodings; the rest is plain ASCII.
 pub fn padstr(n: usize, salt: u32) -> String {
     let alphabet = b"abcdefghijklmnopqrstuvwxyz0123456789";
-    (0..n).map(|i| alphabet[(i * 5 + salt as usize + i / 251) % alphabet.len()] as char).collect()
+    const SPECIAL: [char; 16] = ['\u{0}', '"', '\\', '\n', '\u{1}', '\u{1f}', '\u{7f}', '\u{80}', '\u{e9}', '\u{2013}', '\u{1f600}', '/', '\t', '\u{ffff}', '\u{10ffff}', '\r'];
+    let special = salt % 4 == 3;
+    (0..n)
+        .map(|i| {
+            if special && i % 5 == 2 {
+                SPECIAL[(i / 5 + salt as usize) % SPECIAL.len()]
+            } else {
+                alphabet[(i * 5 + salt as usize + i / 251) % alphabet.len()] as char
+            }
+        })
+        .collect()
 }
 
 /// Position-weighted checksum of a payload (a shifted or partly overwritten payload changes it).
 pub fn pad_sum(p: &str) -> u64 {
+    // (bytes of the decoded string, so escapes on the wire do not matter)
     p.bytes().enumerate().fold(0u64, |h, (i, b)| h.wrapping_mul(31).wrapping_add(b as u64 ^ (i as u64 & 0xff)))
 }
 
